@@ -401,7 +401,10 @@ Qed.
 
 
 (* ---------------------------------------------------------------- enums *)
-Definition fulls (env : enum_env) : list str := map (with_prefix env) (ee_options env).
+(* full names of the enum's values that a rule can name: the explicit zero option, the options *)
+Definition zero_full (env : enum_env) : list str :=
+  match ee_zero env with Some z => [with_prefix env z] | None => [] end.
+Definition fulls (env : enum_env) : list str := zero_full env ++ map (with_prefix env) (ee_options env).
 
 Fixpoint nodup_str (l : list str) : bool :=
   match l with
@@ -417,6 +420,18 @@ Qed.
 
 (* the enum's value names are pairwise different (protobuf requires it) *)
 Definition wf_env (env : enum_env) : bool := nodup_str (fulls env).
+
+Lemma wf_env_parts env :
+  wf_env env = true ->
+  NoDup (map (with_prefix env) (ee_options env)) /\
+  (forall z, ee_zero env = Some z -> ~ In (with_prefix env z) (map (with_prefix env) (ee_options env))).
+Proof.
+  intro H. apply nodup_str_NoDup in H. unfold fulls, zero_full in H.
+  destruct (ee_zero env) as [z0|].
+  - cbn [app] in H. inversion H as [|? ? Hn Hd]; subst. split; [exact Hd|].
+    intros z Hz. inversion Hz; subst. exact Hn.
+  - split; [exact H|]. intros z Hz. discriminate.
+Qed.
 
 Lemma lookup_from_some env opts : forall i nm z,
   lookup_from env opts i nm = Some z ->
@@ -459,18 +474,24 @@ Qed.
 
 Lemma option_name_spec env n nm :
   option_name env n = Some nm <->
-  exists o, 1 <= n /\ nth_error (ee_options env) (Z.to_nat (n - 1)) = Some o /\ nm = with_prefix env o.
+  (exists o, 1 <= n /\ nth_error (ee_options env) (Z.to_nat (n - 1)) = Some o /\ nm = with_prefix env o)
+  \/ (n = 0 /\ exists z, ee_zero env = Some z /\ nm = with_prefix env z).
 Proof.
-  unfold option_name. split.
-  - destruct ((1 <=? n) && (n <=? Z.of_nat (length (ee_options env)))) eqn:E; [|discriminate].
-    apply andb_true_iff in E as [E1 E2]. apply Z.leb_le in E1.
-    destruct (nth_error (ee_options env) (Z.to_nat (n - 1))) as [o|] eqn:En; [|discriminate].
-    intro H; inversion H; subst. exists o. auto.
-  - intros [o [H1 [Hn Hnm]]].
-    assert (Hlt : (Z.to_nat (n - 1) < length (ee_options env))%nat).
-    { apply nth_error_Some. congruence. }
-    destruct (Z.leb_spec 1 n); [|lia]. destruct (Z.leb_spec n (Z.of_nat (length (ee_options env)))); [|lia].
-    cbn. rewrite Hn. subst. reflexivity.
+  unfold option_name. destruct (Z.eqb_spec n 0) as [E0|E0].
+  - subst n. split.
+    + destruct (ee_zero env) as [z|]; [|discriminate]. intro H; inversion H; subst. right.
+      split; [reflexivity|]. exists z. split; reflexivity.
+    + intros [[o [H1 _]]|[_ [z [Hz Hnm]]]]; [lia|]. rewrite Hz. congruence.
+  - split.
+    + destruct ((1 <=? n) && (n <=? Z.of_nat (length (ee_options env)))) eqn:E; [|discriminate].
+      apply andb_true_iff in E as [E1 E2]. apply Z.leb_le in E1.
+      destruct (nth_error (ee_options env) (Z.to_nat (n - 1))) as [o|] eqn:En; [|discriminate].
+      intro H; inversion H; subst. left. exists o. auto.
+    + intros [[o [H1 [Hn Hnm]]]|[Hz _]]; [|contradiction].
+      assert (Hlt : (Z.to_nat (n - 1) < length (ee_options env))%nat).
+      { apply nth_error_Some. congruence. }
+      destruct (Z.leb_spec 1 n); [|lia]. destruct (Z.leb_spec n (Z.of_nat (length (ee_options env)))); [|lia].
+      cbn. rewrite Hn. subst. reflexivity.
 Qed.
 
 Lemma map_values_forall2 env names : forall zs,
@@ -483,6 +504,53 @@ Proof.
     inversion H; subst. constructor; [exact E|apply IH; reflexivity].
 Qed.
 
+Lemma Forall2_in_r {A B} (R : A -> B -> Prop) l l' y :
+  Forall2 R l l' -> In y l' -> exists x, In x l /\ R x y.
+Proof.
+  induction 1 as [|a b r r' Hab Hr IH]; intro Hin; [destruct Hin|].
+  destruct Hin as [Heq|Hin].
+  - subst. exists a. split; [left; reflexivity|exact Hab].
+  - destruct (IH Hin) as [x [Hx HR]]. exists x. split; [right; exact Hx|exact HR].
+Qed.
+Lemma Forall2_in_l {A B} (R : A -> B -> Prop) l l' x :
+  Forall2 R l l' -> In x l -> exists y, In y l' /\ R x y.
+Proof.
+  induction 1 as [|a b r r' Hab Hr IH]; intro Hin; [destruct Hin|].
+  destruct Hin as [Heq|Hin].
+  - subst. exists b. split; [left; reflexivity|exact Hab].
+  - destruct (IH Hin) as [y [Hy HR]]. exists y. split; [right; exact Hy|exact HR].
+Qed.
+
+(* the number a name is mapped to is the number of the option of that full name ... *)
+Lemma map_value_name env name z :
+  map_value env name = Some z -> option_name env z = Some (with_prefix env name).
+Proof.
+  unfold map_value. intro H.
+  destruct (lookup_from env (ee_options env) 1 (with_prefix env name)) as [n|] eqn:E.
+  - inversion H; subst n. apply lookup_from_some in E as [k [o [Hk [Hz Hp]]]].
+    apply option_name_spec. left. exists o. split; [lia|]. split; [|congruence].
+    replace (Z.to_nat (z - 1)) with k by lia. exact Hk.
+  - destruct (ee_zero env) as [zn|] eqn:Ez; [|discriminate].
+    destruct (str_eqb (with_prefix env zn) (with_prefix env name)) eqn:Es; [|discriminate].
+    inversion H; subst z. apply str_eqb_eq in Es.
+    apply option_name_spec. right. split; [reflexivity|]. exists zn. split; [exact Ez|congruence].
+Qed.
+
+(* ... and, the value names being pairwise different, conversely *)
+Lemma name_map_value env name n :
+  wf_env env = true ->
+  option_name env n = Some (with_prefix env name) -> map_value env name = Some n.
+Proof.
+  intros Hwf H. apply wf_env_parts in Hwf as [Hnd Hz]. unfold map_value.
+  apply option_name_spec in H as [[o [H1 [Hn Hnm]]]|[H0 [z [Hzn Hnm]]]].
+  - rewrite Hnm. rewrite (lookup_from_nth env (ee_options env) 1 (Z.to_nat (n - 1)) o Hnd Hn).
+    f_equal. lia.
+  - subst n. destruct (lookup_from env (ee_options env) 1 (with_prefix env name)) as [m|] eqn:E.
+    + exfalso. apply lookup_from_some in E as [k [o [Hk [_ Hp]]]].
+      apply (Hz z Hzn). rewrite <- Hnm, <- Hp. apply in_map. eapply nth_error_In; eauto.
+    + rewrite Hzn, Hnm, str_eqb_refl. reflexivity.
+Qed.
+
 (* a number is among the mapped ones iff its option name is among the listed names *)
 Lemma mapped_mem env names zs n :
   wf_env env = true -> map_values env names = Ok zs ->
@@ -491,40 +559,24 @@ Lemma mapped_mem env names zs n :
               | None => false
               end.
 Proof.
-  intros Hwf Hm. apply nodup_str_NoDup in Hwf. apply map_values_forall2 in Hm.
+  intros Hwf Hm. apply map_values_forall2 in Hm.
   destruct (option_name env n) as [nm|] eqn:Eo.
-  - apply option_name_spec in Eo as [o [H1 [Hn Hnm]]]. subst nm.
-    apply eq_true_iff_eq. rewrite memZ_In, mem_str_In. unfold names_full. split.
-    + intro Hin. induction Hm as [|x z l l' Hx Hm IH]; [destruct Hin|].
-      destruct Hin as [Heq|Hin].
-      * subst z. unfold map_value in Hx. apply lookup_from_some in Hx as [k [o' [Hk [Hz Hp]]]].
-        assert (k = Z.to_nat (n - 1)) by lia. subst k. rewrite Hk in Hn. inversion Hn; subst.
-        cbn. left. symmetry. exact Hp.
-      * cbn. right. apply IH. exact Hin.
-    + intro Hin. induction Hm as [|x z l l' Hx Hm IH]; [destruct Hin|].
-      cbn in Hin. destruct Hin as [Heq|Hin].
-      * left. unfold map_value in Hx. rewrite Heq in Hx.
-        rewrite (lookup_from_nth env (ee_options env) 1 (Z.to_nat (n - 1)) o Hwf Hn) in Hx.
-        assert (Hz : 1 + Z.of_nat (Z.to_nat (n - 1)) = z) by congruence. lia.
-      * right. apply IH. exact Hin.
+  - apply eq_true_iff_eq. rewrite memZ_In, mem_str_In. unfold names_full. rewrite in_map_iff. split.
+    + intro Hin. destruct (Forall2_in_r _ _ _ _ Hm Hin) as [name [Hname Hv]].
+      exists name. split; [|exact Hname]. apply map_value_name in Hv. congruence.
+    + intros [name [Hp Hname]]. destruct (Forall2_in_l _ _ _ _ Hm Hname) as [z [Hz Hv]].
+      rewrite <- Hp in Eo. rewrite (name_map_value env name n Hwf Eo) in Hv. inversion Hv; subst. exact Hz.
   - destruct (memZ n zs) eqn:E; [|reflexivity]. exfalso.
-    apply memZ_In in E.
-    induction Hm as [|x z l l' Hx Hm IH]; [destruct E|].
-    destruct E as [Heq|Hin]; [|apply IH; exact Hin].
-    subst z. unfold map_value in Hx. apply lookup_from_some in Hx as [k [o' [Hk [Hz Hp]]]].
-    assert (Hs : option_name env n = Some (with_prefix env o')).
-    { apply option_name_spec. exists o'. split; [lia|]. split; [|reflexivity].
-      replace (Z.to_nat (n - 1)) with k by lia. exact Hk. }
-    congruence.
+    apply memZ_In in E. destruct (Forall2_in_r _ _ _ _ Hm E) as [name [_ Hv]].
+    apply map_value_name in Hv. congruence.
 Qed.
 
 Lemma option_name_defined env n nm :
   option_name env n = Some nm -> memZ n (defined_numbers env) = true.
 Proof.
-  intro H. unfold option_name in H.
-  destruct ((1 <=? n) && (n <=? Z.of_nat (length (ee_options env)))) eqn:E; [|discriminate].
-  apply andb_true_iff in E as [E1 E2]. apply Z.leb_le in E1. apply Z.leb_le in E2.
-  apply memZ_In. unfold defined_numbers. right.
+  intro H. apply memZ_In. unfold defined_numbers.
+  apply option_name_spec in H as [[o [H1 [Hn _]]]|[H0 _]]; [|left; auto].
+  right. assert (Hlt : (Z.to_nat (n - 1) < length (ee_options env))%nat) by (apply nth_error_Some; congruence).
   apply in_map_iff. exists (Z.to_nat n). split; [lia|]. apply in_seq. lia.
 Qed.
 
@@ -560,11 +612,16 @@ Lemma names_value_spec env name n :
   names_value env name n <-> option_name env n = Some (with_prefix env name).
 Proof.
   rewrite option_name_spec. unfold names_value. split.
-  - intros [i [o [f [Hn [Hi [Ho Hf]]]]]]. apply full_name_spec in Ho, Hf. subst.
-    exists o. split; [lia|]. split; [|congruence].
-    replace (Z.to_nat (Z.of_nat (S i) - 1)) with i by lia. exact Hn.
-  - intros [o [H1 [Hn Hf]]]. exists (Z.to_nat (n - 1)), o, (with_prefix env o).
-    split; [exact Hn|]. split; [lia|]. split; apply full_name_spec; [reflexivity|symmetry; exact Hf].
+  - intros [[i [o [f [Hn [Hi [Ho Hf]]]]]]|[H0 [z [f [Hz [Ho Hf]]]]]].
+    + apply full_name_spec in Ho, Hf. subst. left.
+      exists o. split; [lia|]. split; [|congruence].
+      replace (Z.to_nat (Z.of_nat (S i) - 1)) with i by lia. exact Hn.
+    + apply full_name_spec in Ho, Hf. subst. right. split; [reflexivity|]. exists z. split; [exact Hz|congruence].
+  - intros [[o [H1 [Hn Hf]]]|[H0 [z [Hz Hf]]]].
+    + left. exists (Z.to_nat (n - 1)), o, (with_prefix env o).
+      split; [exact Hn|]. split; [lia|]. split; apply full_name_spec; [reflexivity|symmetry; exact Hf].
+    + right. split; [exact H0|]. exists z, (with_prefix env z).
+      split; [exact Hz|]. split; apply full_name_spec; [reflexivity|symmetry; exact Hf].
 Qed.
 
 Lemma defined_value_spec env n : memZ n (defined_numbers env) = true <-> defined_value env n.
@@ -605,7 +662,10 @@ Qed.
 
 (* ---------------------------------------------------------------- one value against its type *)
 Section Decide.
+(* the engine's matcher decides the declared meaning of patterns *)
 Variable re_match : str -> str -> bool.
+Variable pat_sem : str -> str -> Prop.
+Hypothesis re_dec : forall p s, re_match p s = true <-> pat_sem p s.
 Local Notation str_rule_ok := (RulesSpecDec.str_rule_ok re_match).
 Local Notation key_ok := (RulesSpecDec.key_ok re_match).
 Local Notation ty_ok := (RulesSpecDec.ty_ok re_match).
@@ -613,27 +673,27 @@ Local Notation rule_semb := (RulesSpecDec.rule_semb re_match).
 Local Notation rule_objb := (RulesSpecDec.rule_objb re_match).
 
 
-Lemma str_rule_ok_spec r s : str_rule_ok r s = true <-> str_sem re_match r s.
+Lemma str_rule_ok_spec r s : str_rule_ok r s = true <-> str_sem pat_sem r s.
 Proof.
   unfold str_rule_ok, str_sem. rewrite andb_true_iff, within_spec. apply and_iff_compat_l.
   destruct (sr_pat r) as [p|]; split; intro H.
-  - intros p' Hp. inversion Hp; subst. exact H.
-  - apply H. reflexivity.
+  - intros p' Hp. inversion Hp; subst. apply re_dec. exact H.
+  - apply re_dec. apply H. reflexivity.
   - intros p' Hp. discriminate.
   - reflexivity.
 Qed.
 
 
 
-Lemma key_ok_spec f s : key_ok f s = true <-> key_sem re_match f s.
+Lemma key_ok_spec f s : key_ok f s = true <-> key_sem pat_sem f s.
 Proof.
-  destruct f; cbn [key_ok key_sem]; [tauto|tauto|apply uuid_regex_spec|apply id62_ok_spec].
+  destruct f; cbn [key_ok key_sem]; [tauto|apply re_dec|apply uuid_regex_spec|apply id62_ok_spec].
 Qed.
 
 
-Lemma ty_ok_spec env t v : ty_ok env t v = true <-> ty_sem re_match env t v.
+Lemma ty_ok_spec env t v : ty_ok env t v = true <-> ty_sem pat_sem env t v.
 Proof.
-  destruct t as [k r l|sf r l|r|r l|r l|f e l|f64 l|r l|r l|l|od ts l|fl|l], v; cbn [ty_ok ty_sem];
+  destruct t as [k r l|sf r l|r|r l|r l|f e l|f64 fr l|r l|r l|tr l|od ts l|fl orl|orr l], v; cbn [ty_ok ty_sem];
     try tauto;
     try (destruct r as [r|]); try (destruct f as [f|]); try tauto;
     first [ apply int_rule_ok_spec | apply str_rule_ok_spec | apply within_spec | apply enum_ok_spec
@@ -658,7 +718,7 @@ Proof. destruct t; cbn; split; intro H; try discriminate; try tauto; try reflexi
 
 Lemma is_primary_ty_spec t : is_primary_ty t = true <-> primary_key t.
 Proof.
-  destruct t as [k r l|sf r l|r|r l|r l|f e l|f64 l|r l|r l|l|od ts l|fl|l]; cbn; try (split; [discriminate|tauto]).
+  destruct t as [k r l|sf r l|r|r l|r l|f e l|f64 fr l|r l|r l|tr l|od ts l|fl orl|orr l]; cbn; try (split; [discriminate|tauto]).
   destruct e as [[ty tn]|]; cbn; [|split; [discriminate|tauto]].
   destruct ty as [[[|]|p n]|]; split; intro H; try discriminate; try reflexivity; inversion H.
 Qed.
@@ -701,7 +761,7 @@ Proof.
   - assert (~ flag_set (ar_uniq r)) by (intro Hf; apply is_true_flag in Hf; congruence). tauto.
 Qed.
 
-Theorem rule_semb_spec env d fv : rule_semb env d fv = true <-> rule_sem re_match env d fv.
+Theorem rule_semb_spec env d fv : rule_semb env d fv = true <-> rule_sem pat_sem env d fv.
 Proof.
   unfold rule_semb, rule_sem. destruct (p_ty d) as [t|r sf t|r t], fv as [|v|vs|kvs]; try tauto.
   - rewrite negb_true_iff, <- not_true_iff_false, must_b_spec. tauto.
@@ -709,12 +769,12 @@ Proof.
     apply if_must. rewrite !orb_true_iff, negb_true_iff, <- not_true_iff_false, is_zero_spec, is_msg_ty_spec.
     unfold own_presence. tauto.
   - rewrite !andb_true_iff, <- and_assoc.
-    rewrite (forallb_Forall (ty_ok env t) (ty_sem re_match env t) vs (ty_ok_spec env t)).
+    rewrite (forallb_Forall (ty_ok env t) (ty_sem pat_sem env t) vs (ty_ok_spec env t)).
     rewrite (if_must d (nonempty vs) (vs <> []) (nonempty_spec vs)).
     rewrite (opt_rule r (fun r => arr_rule_ok r vs) (fun r => arr_sem r vs) (fun a => arr_rule_ok_spec a vs)).
     tauto.
   - rewrite !andb_true_iff, <- and_assoc.
-    rewrite (forallb_Forall (fun kv => ty_ok env t (snd kv)) (fun kv => ty_sem re_match env t (snd kv)) kvs
+    rewrite (forallb_Forall (fun kv => ty_ok env t (snd kv)) (fun kv => ty_sem pat_sem env t (snd kv)) kvs
                (fun kv => ty_ok_spec env t (snd kv))).
     rewrite (if_must d (nonempty kvs) (kvs <> []) (nonempty_spec kvs)).
     rewrite (opt_rule r (fun r => within_b (mr_min r) (mr_max r) (count kvs)) (fun r => map_sem r kvs)
@@ -723,7 +783,7 @@ Proof.
 Qed.
 
 
-Lemma rule_objb_spec env ds : forall fvs, rule_objb env ds fvs = true <-> rule_obj re_match env ds fvs.
+Lemma rule_objb_spec env ds : forall fvs, rule_objb env ds fvs = true <-> rule_obj pat_sem env ds fvs.
 Proof.
   unfold rule_obj. induction ds as [|d r IH]; intros [|v s]; cbn [rule_objb].
   - split; [constructor|reflexivity].
@@ -855,6 +915,8 @@ Definition is_absent (fv : fvalue) : bool := match fv with FAbsent => true | _ =
 Section C12.
 Variable re_ok : str -> bool.
 Variable re_match : str -> str -> bool.
+Variable pat_sem : str -> str -> Prop.
+Hypothesis re_dec : forall p s, re_match p s = true <-> pat_sem p s.
 (* the one pattern the compiler itself introduces: the regular expression engine
    compiles the published id62 pattern and decides it as the spec reads key:id62 *)
 Hypothesis re_id62_ok : re_ok Id62Gen.pattern_string = true.
@@ -890,7 +952,7 @@ Lemma scalar_sem env t w v :
   item_ok (defined_numbers env) w v = ty_ok re_match env t v.
 Proof.
   intros Hwf Hw Hty. unfold item_ok.
-  destruct t as [k r l|sf r l|r|r l|r l|f e l|f64 l|r l|r l|l|od ts l|fl|l]; cbn [write_field] in Hw.
+  destruct t as [k r l|sf r l|r|r l|r l|f e l|f64 fr l|r l|r l|tr l|od ts l|fl orl|orr l]; cbn [write_field] in Hw.
   - (* integer *)
     apply obind_ok in Hw as [vo [Hv Hw]]. inversion Hw; subst w; clear Hw. cbn [fw_val].
     destruct v; try discriminate. destruct r as [r|].
@@ -934,13 +996,13 @@ Proof.
     + destruct s as [|c0 s0]; [reflexivity|]. rewrite andb_true_r. reflexivity.
     + rewrite andb_true_r. apply re_id62.
     + reflexivity.
+  - destruct fr; [discriminate|]. inversion Hw; subst w. destruct v; reflexivity.
   - inversion Hw; subst w. destruct v; reflexivity.
   - inversion Hw; subst w. destruct v; reflexivity.
+  - inversion Hw; subst w. destruct tr, v; reflexivity.
   - inversion Hw; subst w. destruct v; reflexivity.
-  - inversion Hw; subst w. destruct v; reflexivity.
-  - inversion Hw; subst w. destruct v; reflexivity.
-  - inversion Hw; subst w. destruct v; reflexivity.
-  - inversion Hw; subst w. destruct v; reflexivity.
+  - inversion Hw; subst w. destruct orl, v; reflexivity.
+  - inversion Hw; subst w. destruct orr, v; reflexivity.
 Qed.
 
 (* the patterns of the emitted constraint are those of the declaration (and the id62 pattern) *)
@@ -952,7 +1014,7 @@ Lemma write_field_compiles env t w :
   end = fty_patterns_ok t.
 Proof.
   intro Hw.
-  destruct t as [k r l|sf r l|r|r l|r l|f e l|f64 l|r l|r l|l|od ts l|fl|l]; cbn [write_field] in Hw;
+  destruct t as [k r l|sf r l|r|r l|r l|f e l|f64 fr l|r l|r l|tr l|od ts l|fl orl|orr l]; cbn [write_field] in Hw; try (destruct fr; [discriminate Hw|]);
     try (apply obind_ok in Hw as [x [Hx Hw]]);
     inversion Hw; subst w; cbn [fw_val fty_patterns_ok]; try reflexivity.
   - destruct r as [r|].
@@ -963,6 +1025,9 @@ Proof.
   - destruct r; reflexivity.
   - destruct r; reflexivity.
   - destruct f as [[|p| |]|]; cbn; try reflexivity. exact re_id62_ok.
+  - destruct tr; reflexivity.
+  - destruct orl; reflexivity.
+  - destruct orr; reflexivity.
 Qed.
 
 Lemma write_field_primary env t w :
@@ -970,7 +1035,7 @@ Lemma write_field_primary env t w :
   match fw_key w with Some k => kx_primary k | None => false end = is_primary_ty t.
 Proof.
   intro Hw.
-  destruct t as [k r l|sf r l|r|r l|r l|f e l|f64 l|r l|r l|l|od ts l|fl|l]; cbn [write_field] in Hw;
+  destruct t as [k r l|sf r l|r|r l|r l|f e l|f64 fr l|r l|r l|tr l|od ts l|fl orl|orr l]; cbn [write_field] in Hw; try (destruct fr; [discriminate Hw|]);
     try (apply obind_ok in Hw as [x [Hx Hw]]);
     inversion Hw; subst w; cbn [fw_key is_primary_ty]; try reflexivity.
   destruct e as [[ty tn]|]; [|reflexivity]. cbn. destruct ty as [[[|]|]|]; reflexivity.
@@ -980,31 +1045,29 @@ Lemma write_field_msg env t w :
   write_field env t = Ok w -> is_msg_kind (fw_kind w) = is_msg_ty t.
 Proof.
   intro Hw.
-  destruct t as [k r l|sf r l|r|r l|r l|f e l|f64 l|r l|r l|l|od ts l|fl|l]; cbn [write_field] in Hw;
+  destruct t as [k r l|sf r l|r|r l|r l|f e l|f64 fr l|r l|r l|tr l|od ts l|fl orl|orr l]; cbn [write_field] in Hw; try (destruct fr; [discriminate Hw|]);
     try (apply obind_ok in Hw as [x [Hx Hw]]);
     inversion Hw; subst w; cbn [fw_kind is_msg_ty]; try reflexivity.
   - destruct k; reflexivity.
   - destruct f64; reflexivity.
 Qed.
 
-(* message-typed fields carry no (buf.validate.field) type constraint *)
-Lemma write_field_msg_noval env t w :
-  write_field env t = Ok w -> is_msg_ty t = true -> fw_val w = None.
-Proof.
-  intros Hw Hm.
-  destruct t as [k r l|sf r l|r|r l|r l|f e l|f64 l|r l|r l|l|od ts l|fl|l]; try discriminate; cbn [write_field] in Hw;
-    inversion Hw; reflexivity.
-Qed.
-
 Lemma forallb_true {A} (l : list A) : forallb (fun _ => true) l = true.
 Proof. induction l; cbn; auto. Qed.
+
+(* a constraint without a type accepts every value *)
+Lemma forallb_empty defined (l : list value) : forallb (eval_scalar re_match defined CEmpty) l = true.
+Proof. induction l as [|v r IH]; [reflexivity|]. cbn [forallb]. rewrite IH. destruct v; reflexivity. Qed.
+Lemma forallb_empty_snd defined (l : list (str * value)) :
+  forallb (fun kv => eval_scalar re_match defined CEmpty (snd kv)) l = true.
+Proof. induction l as [|v r IH]; [reflexivity|]. cbn [forallb]. rewrite IH. destruct (snd v); reflexivity. Qed.
 
 (* buildField never sets required *)
 Lemma write_field_noreq env t w c :
   write_field env t = Ok w -> fw_val w = Some c -> c_req c = false.
 Proof.
   intros Hwt. revert c.
-  destruct t as [k r l|sf r l|r|r l|r l|f e l|f64 l|r l|r l|l|od ts l|fl|l]; cbn [write_field] in Hwt;
+  destruct t as [k r l|sf r l|r|r l|r l|f e l|f64 fr l|r l|r l|tr l|od ts l|fl orl|orr l]; cbn [write_field] in Hwt; try (destruct fr; [discriminate Hwt|]);
     try (apply obind_ok in Hwt as [x [Hx Hwt]]);
     try (destruct r; try discriminate);
     inversion Hwt; subst w; cbn [fw_val]; intros c Ev; try discriminate;
@@ -1013,6 +1076,9 @@ Proof.
     assert (Hc : c = C false (Some c0)) by congruence. rewrite Hc. reflexivity.
   - congruence.
   - destruct f as [[| | |]|]; inversion Ev; reflexivity.
+  - destruct tr; inversion Ev; reflexivity.
+  - destruct orl; inversion Ev; reflexivity.
+  - destruct orr; inversion Ev; reflexivity.
 Qed.
 
 (* the two-valued core on the writer's output decides the declared rules *)
@@ -1036,7 +1102,7 @@ Proof.
     pose proof (write_field_msg env t w Hwt) as Hmsg.
     rewrite Hprim in Hw. set (required := req || is_primary_ty t) in *.
     destruct (opt && required) eqn:Eor; [destruct required; discriminate|].
-    assert (Ho : o = FO name (idx + 1)%N (fw_kind w) false opt (opt || is_msg_kind (fw_kind w))
+    assert (Ho : o = FO name (Strcase.to_snake name) (idx + 1)%N (fw_kind w) false opt (opt || is_msg_kind (fw_kind w))
                        (if required then set_required (fw_val w) else fw_val w)
                        (fw_ext w) (fw_list w) (fw_key w) desc).
     { destruct required; inversion Hw; reflexivity. }
@@ -1069,7 +1135,7 @@ Proof.
       * assert (opt = false) by (destruct opt; [discriminate|reflexivity]). subst opt.
         cbn [orb]. unfold set_required.
         destruct (is_msg_ty t) eqn:Em.
-        -- rewrite (write_field_msg_noval env t w Hwt Em) in *. cbn. exact Hs.
+        -- destruct (fw_val w) as [c|]; cbn [c_req c_ty andb negb orb] in *; exact Hs.
         -- cbn [negb andb orb]. destruct (is_zero v); cbn [negb andb].
            ++ destruct (fw_val w); reflexivity.
            ++ destruct (fw_val w) as [c|]; cbn [c_req c_ty andb] in *; exact Hs.
@@ -1101,10 +1167,10 @@ Proof.
     + (* items carry a constraint *)
       unfold only_ty.
       destruct req; cbn [set_required c_req c_ty andb negb];
-        destruct vs as [|v0 vr]; cbn [negb andb eval_tyc_b length];
+        destruct vs as [|v0 vr]; cbn [negb andb eval_tyc_b length item_tyc];
         destruct r as [r|]; cbn [opt_leN opt_geN andb];
         rewrite ?unique_scan_distinct; try reflexivity;
-        destruct (c_ty c); rewrite <- ?Hitems; cbn [forallb];
+        destruct (c_ty c); rewrite <- ?Hitems, ?forallb_empty; cbn [forallb];
         rewrite ?forallb_true; cbn [andb]; rewrite ?andb_true_r; reflexivity.
     + destruct r as [r|]; cbn [is_some].
       * unfold only_ty.
@@ -1140,10 +1206,10 @@ Proof.
     destruct (fw_val wi) as [c|] eqn:Ev; cbn [is_some orb].
     + unfold only_ty.
       destruct req; cbn [set_required c_req c_ty andb negb];
-        destruct kvs as [|kv0 kvr]; cbn [negb andb eval_tyc_b length];
+        destruct kvs as [|kv0 kvr]; cbn [negb andb eval_tyc_b length item_tyc];
         destruct r as [r|]; cbn [opt_leN opt_geN andb];
         try reflexivity;
-        destruct (c_ty c); rewrite <- ?Hitems; cbn [forallb];
+        destruct (c_ty c); rewrite <- ?Hitems, ?forallb_empty_snd; cbn [forallb];
         rewrite ?forallb_true; cbn [andb]; rewrite ?andb_true_r; reflexivity.
     + destruct r as [r|]; cbn [is_some].
       * unfold only_ty.
@@ -1194,12 +1260,12 @@ Proof.
   - rewrite <- (write_field_compiles env t w Hw). unfold val_ty. destruct (fw_val w); reflexivity.
   - apply obind_ok in Hw as [wi [Hwi Hw]]. inversion Hw; subst w; clear Hw.
     rewrite <- (write_field_compiles env t wi Hwi). cbn [wrap_array fw_val].
-    destruct (fw_val wi) as [c|]; cbn [is_some orb only_ty val_ty c_ty tyc_compiles].
+    destruct (fw_val wi) as [c|]; cbn [is_some orb only_ty val_ty c_ty tyc_compiles item_tyc].
     + destruct (c_ty c); reflexivity.
     + destruct r; reflexivity.
   - apply obind_ok in Hw as [wi [Hwi Hw]]. inversion Hw; subst w; clear Hw.
     rewrite <- (write_field_compiles env t wi Hwi). cbn [wrap_map fw_val].
-    destruct (fw_val wi) as [c|]; cbn [is_some orb only_ty val_ty c_ty tyc_compiles].
+    destruct (fw_val wi) as [c|]; cbn [is_some orb only_ty val_ty c_ty tyc_compiles item_tyc].
     + destruct (c_ty c); reflexivity.
     + destruct r; reflexivity.
 Qed.
@@ -1284,14 +1350,14 @@ Theorem c12_main env idx d o fv :
   evaluable d = true ->
   write_prop env idx d = Ok o ->
   fvalue_typed d fv = true ->
-  (validate_sem re_ok re_match (defined_numbers env) o fv = VAccept <-> rule_sem re_match env d fv) /\
-  (validate_sem re_ok re_match (defined_numbers env) o fv = VReject <-> ~ rule_sem re_match env d fv).
+  (validate_sem re_ok re_match (defined_numbers env) o fv = VAccept <-> rule_sem pat_sem env d fv) /\
+  (validate_sem re_ok re_match (defined_numbers env) o fv = VReject <-> ~ rule_sem pat_sem env d fv).
 Proof.
   intros Hwf Hkp Hev Hw Hty.
   rewrite (c12_verdict env idx d o fv Hwf Hkp Hw Hty).
   unfold evaluable in Hev. apply andb_true_iff in Hev as [Hp Hu]. apply negb_true_iff in Hu.
   rewrite Hp, Hu. cbn [negb andb].
-  rewrite <- (rule_semb_spec re_match env d fv).
+  rewrite <- (rule_semb_spec re_match pat_sem re_dec env d fv).
   destruct (rule_semb re_match env d fv); cbn; split; split; intro H; try congruence; try reflexivity;
     try (exfalso; apply H; reflexivity).
 Qed.
@@ -1345,8 +1411,8 @@ Theorem c12_object env ds : forall idx os fvs,
   forallb evaluable ds = true ->
   write_props_from env idx ds = Ok os ->
   typed_obj ds fvs = true ->
-  (validate_obj re_ok re_match (defined_numbers env) os fvs = VAccept <-> rule_obj re_match env ds fvs) /\
-  (validate_obj re_ok re_match (defined_numbers env) os fvs = VReject <-> ~ rule_obj re_match env ds fvs).
+  (validate_obj re_ok re_match (defined_numbers env) os fvs = VAccept <-> rule_obj pat_sem env ds fvs) /\
+  (validate_obj re_ok re_match (defined_numbers env) os fvs = VReject <-> ~ rule_obj pat_sem env ds fvs).
 Proof.
   unfold rule_obj.
   induction ds as [|d r IH]; intros idx os fvs Hwf Hkp Hev Hw Hty; cbn in Hw.
@@ -1379,16 +1445,16 @@ Proof.
           rewrite ?E1, ?E2; cbn; try reflexivity.
         -- exfalso. apply Hn. constructor; [apply Ha; exact E1|apply IHa; exact E2].
         -- exfalso. (* the tail cannot be an error *)
-           assert (Hd : Forall2 (rule_sem re_match env) r s \/ ~ Forall2 (rule_sem re_match env) r s).
+           assert (Hd : Forall2 (rule_sem pat_sem env) r s \/ ~ Forall2 (rule_sem pat_sem env) r s).
            { destruct (rule_objb re_match env r s) eqn:Eb.
-             - left. apply (rule_objb_spec re_match env r s). exact Eb.
-             - right. intro Hx. apply (rule_objb_spec re_match env r s) in Hx. congruence. }
+             - left. apply (rule_objb_spec re_match pat_sem re_dec env r s). exact Eb.
+             - right. intro Hx. apply (rule_objb_spec re_match pat_sem re_dec env r s) in Hx. congruence. }
            destruct Hd as [Hd|Hd]; [apply IHa in Hd|apply IHr in Hd]; congruence.
         -- exfalso.
-           assert (Hd : Forall2 (rule_sem re_match env) r s \/ ~ Forall2 (rule_sem re_match env) r s).
+           assert (Hd : Forall2 (rule_sem pat_sem env) r s \/ ~ Forall2 (rule_sem pat_sem env) r s).
            { destruct (rule_objb re_match env r s) eqn:Eb.
-             - left. apply (rule_objb_spec re_match env r s). exact Eb.
-             - right. intro Hx. apply (rule_objb_spec re_match env r s) in Hx. congruence. }
+             - left. apply (rule_objb_spec re_match pat_sem re_dec env r s). exact Eb.
+             - right. intro Hx. apply (rule_objb_spec re_match pat_sem re_dec env r s) in Hx. congruence. }
            destruct Hd as [Hd|Hd]; [apply IHa in Hd|apply IHr in Hd]; congruence.
 Qed.
 
@@ -1413,53 +1479,62 @@ End C12.
 (* ================================================================ layer 3: statements *)
 (* the laws a regular-expression engine must satisfy: it compiles the published
    id62 pattern and decides it as the specification reads key:id62 *)
-Definition engine_ok (re_ok : str -> bool) (re_match : str -> str -> bool) : Prop :=
+Definition engine_ok (re_ok : str -> bool) (re_match : str -> str -> bool) (pat_sem : str -> str -> Prop) : Prop :=
+  (* the matcher decides the declared meaning of patterns *)
+  (forall p s, re_match p s = true <-> pat_sem p s) /\
+  (* the published id62 pattern compiles and means "22 characters of 0-9 A-Z a-z" *)
   re_ok Id62Gen.pattern_string = true /\
-  forall s, re_match Id62Gen.pattern_string s = true <-> id62_text s.
+  (forall s, pat_sem Id62Gen.pattern_string s <-> id62_text s).
 
-Lemma engine_id62_bool re_ok re_match :
-  engine_ok re_ok re_match -> forall s, re_match Id62Gen.pattern_string s = id62_ok s.
-Proof. intros [_ H] s. apply eq_true_iff_eq. rewrite H, id62_ok_spec. reflexivity. Qed.
+Lemma engine_id62_bool re_ok re_match pat_sem :
+  engine_ok re_ok re_match pat_sem -> forall s, re_match Id62Gen.pattern_string s = id62_ok s.
+Proof. intros [Hd [_ H]] s. apply eq_true_iff_eq. rewrite Hd, H, id62_ok_spec. reflexivity. Qed.
 
-(* C20's class-count matcher is such an engine *)
-Lemma class_count_engine : engine_ok re_class_ok re_class_count.
+(* C20's class-count matcher is such an engine (its matching relation as the meaning) *)
+Lemma class_count_engine : engine_ok re_class_ok re_class_count (fun p s => re_class_count p s = true).
 Proof.
-  split.
+  split; [intros; reflexivity|]. split.
   - unfold re_class_ok. rewrite Id62Proofs.pattern_parsed. reflexivity.
   - intro s. rewrite class_count_id62. apply id62_ok_spec.
 Qed.
 
 (* the property, unrestricted *)
 Definition c12_statement (restrict : (str -> bool) -> prop -> bool) : Prop :=
-  forall re_ok re_match, engine_ok re_ok re_match ->
+  forall re_ok re_match pat_sem, engine_ok re_ok re_match pat_sem ->
   forall env idx d o fv,
     wf_env env = true -> key_placement_ok d = true -> restrict re_ok d = true ->
     write_prop env idx d = Ok o -> fvalue_typed d fv = true ->
-    (validate_sem re_ok re_match (defined_numbers env) o fv = VAccept <-> rule_sem re_match env d fv) /\
-    (validate_sem re_ok re_match (defined_numbers env) o fv = VReject <-> ~ rule_sem re_match env d fv).
+    (validate_sem re_ok re_match (defined_numbers env) o fv = VAccept <-> rule_sem pat_sem env d fv) /\
+    (validate_sem re_ok re_match (defined_numbers env) o fv = VReject <-> ~ rule_sem pat_sem env d fv).
 
 Theorem c12_partial : c12_statement evaluable.
 Proof.
-  intros re_ok re_match He env idx d o fv Hwf Hkp Hev Hw Hty.
-  exact (c12_main re_ok re_match (proj1 He) (engine_id62_bool re_ok re_match He) env idx d o fv Hwf Hkp Hev Hw Hty).
+  intros re_ok re_match pat_sem He env idx d o fv Hwf Hkp Hev Hw Hty.
+  exact (c12_main re_ok re_match pat_sem (proj1 He) (proj1 (proj2 He)) (engine_id62_bool re_ok re_match pat_sem He)
+           env idx d o fv Hwf Hkp Hev Hw Hty).
 Qed.
 
 (* witness 1: array of objects with uniqueItems = true, one item *)
 Definition w_unique_obj : prop :=
-  P [97%N] false false (PArray (Some (AR None None (Some true))) None (TObject false)) [].
+  P [97%N] false false (PArray (Some (AR None None (Some true))) None (TObject false None)) [].
 (* witness 2: a string whose pattern is "[" *)
 Definition w_bad_pattern : prop :=
   P [97%N] false false (PSingle (TStr None (Some (SR (Some [91%N]) None None)) None)) [].
 
 Theorem c12_unique_messages_refuted :
-  forall re_ok re_match, exists o,
-    write_prop (EE [] []) 0 w_unique_obj = Ok o /\
+  forall re_ok re_match pat_sem, exists o,
+    write_prop (EE [] None []) 0 w_unique_obj = Ok o /\
     fvalue_typed w_unique_obj (FMany [VMsg 0]) = true /\
-    rule_sem re_match (EE [] []) w_unique_obj (FMany [VMsg 0]) /\
-    validate_sem re_ok re_match (defined_numbers (EE [] [])) o (FMany [VMsg 0]) = VError ERuntime.
+    rule_sem pat_sem (EE [] None []) w_unique_obj (FMany [VMsg 0]) /\
+    validate_sem re_ok re_match (defined_numbers (EE [] None [])) o (FMany [VMsg 0]) = VError ERuntime.
 Proof.
-  intros re_ok re_match. eexists. split; [reflexivity|]. split; [reflexivity|]. split; [|reflexivity].
-  apply (rule_semb_spec re_match). reflexivity.
+  intros re_ok re_match pat_sem. eexists. split; [reflexivity|]. split; [reflexivity|]. split; [|reflexivity].
+  unfold rule_sem, w_unique_obj. cbn [p_ty]. split; [intros _; discriminate|]. split.
+  - intros r' Hr. inversion Hr; subst. split.
+    + split; intros m Hm; discriminate.
+    + intros _ i j a b Hij Ha Hb. destruct i as [|i]; [|destruct i; discriminate].
+      destruct j as [|j]; [lia|]. destruct j; discriminate.
+  - constructor; [exact I|constructor].
 Qed.
 
 Theorem c12_bad_pattern_refuted :
@@ -1475,10 +1550,32 @@ Qed.
 Theorem c12_full_refuted : ~ c12_statement (fun _ _ => true).
 Proof.
   intro H.
-  destruct (c12_unique_messages_refuted re_class_ok re_class_count) as [o [Hw [Hty [Hr Hv]]]].
-  destruct (H re_class_ok re_class_count class_count_engine (EE [] []) 0%N w_unique_obj o (FMany [VMsg 0])
+  destruct (c12_unique_messages_refuted re_class_ok re_class_count (fun p s => re_class_count p s = true)) as [o [Hw [Hty [Hr Hv]]]].
+  destruct (H re_class_ok re_class_count _ class_count_engine (EE [] None []) 0%N w_unique_obj o (FMany [VMsg 0])
               eq_refl eq_refl eq_refl Hw Hty) as [Ha _].
   apply Ha in Hr. rewrite Hv in Hr. discriminate.
+Qed.
+
+(* what "required" means for a scalar declared without [optional]: the compiled field
+   has no presence of its own, so the message in which it holds the default value
+   (0, "", false, UNSPECIFIED) IS the message in which it is not set — and the
+   validator rejects it. (A JSON document carrying an explicit 0 decodes to that same
+   message: at the level of compiled messages the two cannot be told apart.) *)
+Theorem c12_required_default re_ok re_match pat_sem :
+  engine_ok re_ok re_match pat_sem ->
+  forall env idx name t desc o v,
+    wf_env env = true ->
+    fty_patterns_ok re_ok t = true ->
+    is_msg_ty t = false ->
+    write_prop env idx (P name true false (PSingle t) desc) = Ok o ->
+    value_typed t v = true -> is_zero v = true ->
+    validate_sem re_ok re_match (defined_numbers env) o (FOne v) = VReject.
+Proof.
+  intros He env idx name t desc o v Hwf Hp Hm Hw Hty Hz.
+  rewrite (c12_verdict re_ok re_match (proj1 (proj2 He)) (engine_id62_bool re_ok re_match pat_sem He)
+             env idx (P name true false (PSingle t) desc) o (FOne v) Hwf eq_refl Hw Hty).
+  cbn [p_ty elem_ty]. rewrite Hp. cbn [negb]. unfold unique_on_messages. cbn [p_ty andb].
+  unfold rule_semb, must_b. cbn [p_ty p_req p_opt orb]. rewrite Hm, Hz. reflexivity.
 Qed.
 
 (* components, in the form the props file states them *)
